@@ -67,6 +67,7 @@ void COTmrClear(CO_TMR *tmr)
 {
     CO_NODE    *node = tmr->Node;
     CO_TPDO    *pdo;
+    CO_HBCONS  *hbc;
     uint16_t    num;
 
     /* delete heartbeat timer */
@@ -74,6 +75,38 @@ void COTmrClear(CO_TMR *tmr)
         COTmrDelete(tmr, node->Nmt.Tmr);
         node->Nmt.Tmr = -1;
     }
+
+    /* delete heartbeat consumer timers */
+    for (hbc = node->Nmt.HbCons; hbc != 0; hbc = hbc->Next) {
+        if (hbc->Tmr > -1) {
+            COTmrDelete(tmr, hbc->Tmr);
+            hbc->Tmr = -1;
+        }
+    }
+
+    /* delete sync producer timer */
+    if (node->Sync.Tmr > -1) {
+        COTmrDelete(tmr, node->Sync.Tmr);
+        node->Sync.Tmr = -1;
+    }
+
+#if USE_CSDO
+    /* delete sdo client timeout timers */
+    for (num = 0; num < CO_CSDO_N; num++) {
+        if (node->CSdo[num].Tfer.Tmr > -1) {
+            COTmrDelete(tmr, node->CSdo[num].Tfer.Tmr);
+            node->CSdo[num].Tfer.Tmr = -1;
+        }
+    }
+#endif
+
+#if USE_LSS
+    /* delete lss bit timing switch timer */
+    if (node->Lss.Tmr > -1) {
+        COTmrDelete(tmr, node->Lss.Tmr);
+        node->Lss.Tmr = -1;
+    }
+#endif
 
     /* check all tpdo timers */
     for (num = 0; num < CO_TPDO_N; num++) {
